@@ -206,4 +206,12 @@ CONTRACTS = {
                            "not any(source_node.get_output_type(v) is None or target_node.get_input_type(v) is None or not is_type_compatible(source_node.get_output_type(v), target_node.get_input_type(v)) for v in _seq[:_i])"]},
         ],
     ),
+    "nodes/base.py:_validate_emit_wait_for": dict(
+        props=["C17", "C19"],
+        params={"node_name": STR, "emit": SEQ(STR), "wait_for": SEQ(STR), "data_outputs": SEQ(STR), "inputs": SEQ(STR)},
+        returns=NONE_T,
+        # ordering names are kept apart from data names, wherever the clash sits in the tuples
+        raises={"ValueError": "any(e in data_outputs for e in emit) or any(w in inputs for w in wait_for) or any(e in wait_for for e in emit)"},
+        modifies=[],
+    ),
 }
